@@ -53,7 +53,7 @@
 typedef struct { int v[10]; } ev_t;            /* v[0] = kind: 1 split, 6 sign bit, 7 leaf, 9 trial end */
 typedef struct { int i, tell, sig, sig2, ev0, ev1; } band_t;
 typedef struct {
-   int role, C, LM, st, en, cb, inten, dual, shortb, spread, bal, total, cx, dinv, stor, inpkt, err, tellEnd, sigEnd, sigEnd2;
+   int role, C, LM, st, en, cb, inten, dual, shortb, spread, bal, total, cx, dinv, stor, inpkt, err, err0, tellEnd, sigEnd, sigEnd2;
    int tf[NBMAX], p[NBMAX];
    int masks[2 * NBMAX];
    int nb; band_t b[MAXBANDS];
@@ -235,7 +235,7 @@ void quant_all_bands(int encode, const CELTMode *m, int start, int end, celt_nor
    memset(c, 0, sizeof *c);
    c->role = role; c->C = C; c->LM = LM; c->st = start; c->en = end; c->cb = codedBands; c->inten = intensity; c->dual = dual_stereo;
    c->shortb = shortBlocks; c->spread = spread; c->bal = (int)balance; c->total = (int)total_bits; c->cx = complexity; c->dinv = disable_inv;
-   c->stor = (int)ec->storage;
+   c->stor = (int)ec->storage; c->err0 = ec->error;
    c->inpkt = (g_pkt == NULL) || (ec->buf >= g_pkt && ec->buf < g_pkt + g_pktlen);
    for (j = 0; j < NBMAX; j++) {
       c->tf[j] = (j >= start && j < end) ? tf_res[j] : 0;
@@ -271,9 +271,9 @@ static void put_call(const qcall_t *c)
 {
    int k;
    printf("{\"r\":%d,\"C\":%d,\"LM\":%d,\"st\":%d,\"en\":%d,\"cb\":%d,\"inten\":%d,\"dual\":%d,\"short\":%d,\"spread\":%d,\"bal\":%d,"
-          "\"total\":%d,\"cx\":%d,\"dinv\":%d,\"stor\":%d,\"inpkt\":%d,\"err\":%d,\"tellEnd\":%d,\"sigEnd\":[%d,%d],\"broken\":%d",
+          "\"total\":%d,\"cx\":%d,\"dinv\":%d,\"stor\":%d,\"inpkt\":%d,\"err\":%d,\"err0\":%d,\"tellEnd\":%d,\"sigEnd\":[%d,%d],\"broken\":%d",
           c->role, c->C, c->LM, c->st, c->en, c->cb, c->inten, c->dual, c->shortb, c->spread, c->bal, c->total, c->cx, c->dinv, c->stor,
-          c->inpkt, c->err, c->tellEnd, c->sigEnd, c->sigEnd2, c->broken);
+          c->inpkt, c->err, c->err0, c->tellEnd, c->sigEnd, c->sigEnd2, c->broken);
    js_arr_i("tf", c->tf, NBMAX); js_arr_i("p", c->p, NBMAX); js_arr_i("masks", c->masks, 2 * NBMAX);
    printf(",\"bands\":[");
    for (k = 0; k < c->nb; k++) {
@@ -341,7 +341,8 @@ static void fill_band(hx_rng *r, celt_norm *x, int n, int shape)
       case 2: w = j < n / 2 ? 0.02 : 1.0; break;          /* ... in the second half */
       case 3: w = (j % 4 == 0) ? 1.0 : 0.0; break;        /* sparse */
       case 4: w = j == (n > 1 ? 1 : 0) ? 1.0 : 0.0; break;/* one coefficient */
-      default: w = j < n / 2 ? 1.0 : 0.0; break;          /* second half exactly empty */
+      case 5: w = j < n / 2 ? 1.0 : 0.0; break;           /* second half exactly empty */
+      default: w = j < n / 2 ? 0.0 : 1.0; break;          /* first half exactly empty */
       }
       t[j] = w * (2 * hx_unit(r) - 1);
       e += t[j] * t[j];
@@ -382,7 +383,7 @@ static void run_case(char *ln)
       r.s = (uint64_t)seed * 0x9E3779B97F4A7C15ULL + 4242;
       for (c = 0; c < C; c++) for (j = 0; j < NBMAX; j++) {
          int n = M * (m->eBands[j + 1] - m->eBands[j]);
-         fill_band(&r, X + c * N + M * m->eBands[j], n, shape == 9 ? (int)hx_u(&r, 6) : shape);
+         fill_band(&r, X + c * N + M * m->eBands[j], n, shape == 9 ? (int)hx_u(&r, 7) : shape);
 #ifdef FIXED_POINT
          bandE[c * NBMAX + j] = (celt_ener)(1 + hx_u(&r, 1 << 20));
 #else
